@@ -48,6 +48,11 @@ Hashes == {HashOf(p) : p \in Props}
 PropOfHash(h) == CHOOSE p \in Props : HashOf(p) = h
 
 Cast(p)          == [type |-> "cast", prop |-> p, filed |-> HashOf(p), signed |-> HashOf(p), sender |-> 0, v |-> 0]
+(* the same call while a faulty member's share OVER THE PARTY KEY, filed under the party key (the key the
+   party is kept under until round 0 knows the block), keeps arriving: for the reference handler this is
+   a cast like any other -- such a share signs no block and is never counted *)
+CastUnderFire(p) == [Cast(p) EXCEPT !.v = 1]
+IsCastOf(m, p)   == m.type = "cast" /\ m.prop = p
 Verify(h, s)     == [type |-> "verify", prop |-> PropOfHash(h), filed |-> h, signed |-> h, sender |-> s, v |-> 0]
 Own(p)           == [type |-> "own", prop |-> p, filed |-> HashOf(p), signed |-> HashOf(p), sender |-> Self, v |-> 0]
 WrongBlock(h, g, s) == [type |-> "wrongBlock", prop |-> PropOfHash(h), filed |-> h, signed |-> g, sender |-> s, v |-> 0]
@@ -139,6 +144,7 @@ MainHashes == {HashOf(p) : p \in Props \ {"A2"}}
 Next ==
   /\ Len(hist) < MaxLen
   /\ \/ \E p \in Props : MayDeliver(Cast(p)) /\ OnCast(p)
+     \/ \E p \in Props : MayDeliver(CastUnderFire(p)) /\ Handle(CastUnderFire(p))
      \/ \E h \in Hashes, s \in Others : MayDeliver(Verify(h, s)) /\ OnVerify(Verify(h, s))
      \/ \E p \in emitted : MayDeliver(Own(p)) /\ OnVerify(Own(p))
      \/ \E h \in MainHashes, g \in MainHashes, s \in Others :
@@ -166,10 +172,10 @@ OnlySharesForTheBlock ==
      \E i \in 1..Len(hist) : hist[i].type \in {"verify", "own"} /\ hist[i].filed = h /\ hist[i].signed = h /\ hist[i].sender = s
 (* shares that arrived before the proposal count: if the proposal was admitted, the party did not
    time out, and KThr distinct members' valid shares for it were delivered at any time, it finalised *)
-Admitted(p) == \E i \in 1..Len(hist) : hist[i] = Cast(p) /\ \A j \in 1..(i - 1) : hist[j].type = "cast" => KeyOf(hist[j].prop) # KeyOf(p)
+Admitted(p) == \E i \in 1..Len(hist) : IsCastOf(hist[i], p) /\ \A j \in 1..(i - 1) : hist[j].type = "cast" => KeyOf(hist[j].prop) # KeyOf(p)
 ValidSenders(h) == {hist[i].sender : i \in {j \in 1..Len(hist) : hist[j].type \in {"verify", "own"} /\ hist[j].filed = h /\ hist[j].signed = h}}
 (* position of the cast that admitted p (0: none) and of the first expiry after it (MaxLen + 1: none) *)
-AdmitPos(p) == IF Admitted(p) THEN CHOOSE i \in 1..Len(hist) : hist[i] = Cast(p) /\ \A j \in 1..(i - 1) : hist[j] # Cast(p) ELSE 0
+AdmitPos(p) == IF Admitted(p) THEN CHOOSE i \in 1..Len(hist) : IsCastOf(hist[i], p) /\ \A j \in 1..(i - 1) : ~IsCastOf(hist[j], p) ELSE 0
 ExpiryAfter(c) == LET later == {i \in (c + 1)..Len(hist) : hist[i] = Expire}
                   IN IF later = {} THEN Len(hist) + 1 ELSE CHOOSE i \in later : \A j \in later : i <= j
 (* valid shares delivered while the party could still take them, buffered ones included *)
@@ -181,7 +187,7 @@ LateSharesCount ==
   \A p \in Props : (Admitted(p) /\ Cardinality(SendersBeforeTimeout(HashOf(p))) >= KThr) => HashOf(p) \in Range(added)
 (* C15's third clause on this path: messages of a faulty member (shares over another block, messages
    filed under an honest member's id) are in the sequence, and still LateSharesCount holds *)
-FaultyPresent == \E i \in 1..Len(hist) : hist[i].type \in {"forged", "wrongBlock"}
+FaultyPresent == \E i \in 1..Len(hist) : hist[i].type \in {"forged", "wrongBlock"} \/ (hist[i].type = "cast" /\ hist[i].v = 1)
 
 (* NOT given by the design: one finalised block per slot (two proposals of the same castor with
    different keys are both signed and both finalised) *)
